@@ -20,7 +20,8 @@ ModelCfg == [maddr |-> 1, enabled |-> TRUE,
              assocs |-> [a \in 1..NA |-> Assocs[a]]]
 
 TxRec(x) == [t |-> x.t, fc |-> x.fc, seq |-> x.seq, fir |-> TRUE, fin |-> TRUE, con |-> FALSE, uns |-> x.uns,
-             dst |-> x.dst, bid |-> 0, obid |-> ObId(x.what), nobj |-> 0, wf |-> TRUE, hdrs |-> <<>>]
+             dst |-> x.dst, bid |-> 0, obid |-> ObId(x.what), nobj |-> 0, wf |-> TRUE, hdrs |-> <<>>,
+             pid |-> IF x.what.t = "poll" THEN x.what.pid ELSE -1]
 
 KindOf(task) == CASE task.t = "uread" -> "read" [] task.t = "cmd" -> "cmd" [] task.t = "restart" -> "restart"
                   [] task.t = "link" -> "link_status" [] task.t = "empty" -> "empty" [] task.t = "time" -> "time"
